@@ -449,6 +449,18 @@ pub fn one_c13(prop: &str, c: &Case, rep: &mut Report) {
                     what = format!("cell {i}: volume {:e} vs {:e}, centroid {:?} vs {:?}, face count {} vs {}", x.volume(), y.volume(), x.centroid(), y.centroid(), x.face_count(), y.face_count());
                     break;
                 }
+                let nbs = guarded(|| (x.neighbour_ids(&via).collect::<Vec<_>>(), y.neighbour_ids(&direct).collect::<Vec<_>>()));
+                match nbs {
+                    Ok((nx, ny)) if nx != ny => {
+                        what = format!("cell {i}: neighbour_ids {nx:?} (from the integrator) vs {ny:?} (direct build)");
+                        break;
+                    }
+                    Err(_) => {
+                        what = format!("cell {i}: neighbour_ids panicked");
+                        break;
+                    }
+                    _ => {}
+                }
             }
         }
         rep.violations.push(Violation::new(prop, "c13.routes_differ", format!("Voronoi::from(&integrator) is not bitwise the direct build: {what}"), Some(c), json!({"digest_integrator": d1.hex(), "digest_direct": d2.hex()})));
